@@ -40,11 +40,13 @@ func H12Exec() {
 		wgt := ndInt("weight")
 		vAssume(wgt >= -2 && wgt <= 2)
 		kind := "Job"
-		if ndBool("crd") {
-			kind, s.crd = "CustomResourceDefinition", true
-		}
 		s.matches = ndBool("matches")
-		s.before, s.onOK, s.onFailed = ndBool("before-hook-creation"), ndBool("hook-succeeded"), ndBool("hook-failed")
+		if k < 2 {
+			if ndBool("crd") {
+				kind, s.crd = "CustomResourceDefinition", true
+			}
+			s.before, s.onOK, s.onFailed = ndBool("before-hook-creation"), ndBool("hook-succeeded"), ndBool("hook-failed")
+		} // a third hook (thorough tier) varies in weight, name and event only; its policy is the default
 		// template paths sort the other way round than names: ties are by NAME
 		h := &release.Hook{Name: names[k], Kind: kind, Path: "c/templates/" + string(rune('z'-names[k][1]+'a')) + ".yaml", Weight: wgt,
 			Manifest: "apiVersion: batch/v1\nkind: " + kind + "\nmetadata:\n  name: " + names[k] + "\n"}
